@@ -123,6 +123,7 @@ class Info:
         self.builder_defaults: dict[str, object] = {}   # build_mri_transforms parameter -> default ("NODEFAULT" when none)
         self.builder_required: list[str] = []
         self.dead_model_keys: list[str] = []        # report only
+        self.str_enum_defaults: list[str] = []      # `x: str = SomeEnum.MEMBER` (stored by OmegaConf as the text `SomeEnum.MEMBER`)
 
     # ------------------------------------------------------------------------------------------
     def S(self, s: str) -> int:
@@ -306,6 +307,12 @@ def introspect(force: bool = False) -> Info:
             info.strings.add(f.name)
             d = _try(info, f"default of {c.__name__}.{f.name}", lambda f=f: field_default(f))
             _collect_strings(info, d)
+            if isinstance(d, enum.Enum):
+                info.enums.setdefault(type(d).__name__, type(d))
+                hint_core = [a for a in typing.get_args(hints.get(f.name)) if a is not type(None)] \
+                    if typing.get_origin(hints.get(f.name)) is typing.Union else [hints.get(f.name)]
+                if hint_core == [str]:
+                    info.str_enum_defaults.append(f"{c.__module__}.{c.__name__}.{f.name} = {type(d).__name__}.{d.name}")
             for t in _walk_types(hints.get(f.name, typing.Any)):
                 if inspect.isclass(t) and issubclass(t, enum.Enum):
                     info.enums[t.__name__] = t
@@ -617,6 +624,8 @@ def emit(info: Info) -> tuple[str, dict]:
         for (m, n), (ps, req, kw) in sorted(I.model_inits.items())) + "]\n")
     out.append("/-- class-level defaults that are dataclass instances or mutable literals (ValueError at import on Python >= 3.11) -/")
     out.append("def instanceDefaults : List Str := [" + ", ".join(cps(s) for s in I.instance_defaults) + "]")
+    out.append("/-- `str`-typed fields whose default is an Enum member: OmegaConf stores the text `Cls.NAME`, which no dispatch recognises -/")
+    out.append("def strFieldEnumDefaults : List Str := [" + ", ".join(cps(s) for s in sorted(set(I.str_enum_defaults))) + "]")
     out.append("/-- config classes with annotated fields but no `@dataclass` decorator -/")
     out.append("def undecoratedConfigs : List Str := [" + ", ".join(cps(s) for s in I.undecorated) + "]")
     out.append("/-- modules / signatures / YAML files that could not be imported, read or parsed on the running Python -/")
